@@ -434,8 +434,8 @@ func (h *histCtx) cholStep(parent *cholNode, oi int, depth int) {
 	}
 	// Cond: updated factorizations estimate the norm of A by |Uᵀ||U| (documented
 	// overestimate, at most n times larger); Scale and Clone copy the parent's value.
-	if c, fc := recv.Cond(), fresh.Cond(); !(c >= 0.5*fc && c <= 2.02*fn*fc) || math.IsNaN(c) {
-		h.failf("", "Cond = %.6g after %s; fresh factorization %.6g (reference %.6g), accepted [0.5, 2n]·fresh", c, op.name, fc, kappa)
+	if c, fc := recv.Cond(), fresh.Cond(); !(c >= kappa/3 && c <= 1.01*fn*kappa) || math.IsNaN(c) {
+		h.failf("", "Cond = %.6g after %s; reference %.6g (fresh factorization %.6g), accepted [ref/3, n·ref]", c, op.name, kappa, fc)
 		return
 	}
 	// a solve
@@ -663,8 +663,8 @@ func (h *histCtx) luStep(parent *luNode, oi int, depth int) {
 	}
 	// Cond after an update uses |L||U| as the norm of A (documented overestimate)
 	over := normInf(Lm) * normInf(Um) / normInf(A2)
-	if c := recv.Cond(); !(c >= kappa/10 && c <= kappa*math.Max(over, 1)*1.01) || math.IsNaN(c) {
-		h.failf("", "Cond = %.6g after %s; reference %.6g (accepted [ref/10, ref·|L||U|/|A|])", c, op.name, kappa)
+	if c := recv.Cond(); !(c >= kappa/3 && c <= kappa*math.Max(over, 1)*1.01) || math.IsNaN(c) {
+		h.failf("", "Cond = %.6g after %s; reference %.6g (accepted [ref/3, ref·|L||U|/|A|])", c, op.name, kappa)
 		return
 	}
 	b := make([]float64, n)
